@@ -328,10 +328,8 @@ def run(ctx):
     rng = ctx.rng
     ctx.notes.append("quantity round trip (show_parse_value) is stated under the contract float(str(x)) = x of the trusted "
                      "primitives; the harness checks that contract bitwise on every generated double")
-    ctx.notes.append("grammar_semantics_partial: reading, dimension, a/b <-> a.b-1 and permutation-invariance of the dimension are "
-                     "proved; the SI-scale product formula and 'consistent => accepted' are NOT proved in Lean — they are checked "
-                     "exactly (rational arithmetic) by the oracle on every 1-factor string, every symbol pair x both separators "
-                     "and random 3-factor strings")
+    ctx.notes.append("grammar_semantics is proved in full (acceptance iff no two factors name different base units of one kind, "
+                     "dimension, SI-scale product via the C06 SI spec, whole-result invariance under permutation and a/b <-> a.b-1)")
     ctx.notes.append("rejection theorems for separators / exponent placement / foreign characters / two units are stated on the "
                      "preprocessed text (after the u->µ chain, which only rewrites the letter u, and strip); embedded-blank and "
                      "blank-inside-quantity-units are stated on the raw text")
